@@ -5,6 +5,8 @@ import Rare.Spec.C09Frag
 import Rare.Model.C09Err
 import Rare.Spec.C09WFB
 import Rare.Spec.C09Pos
+import Rare.Spec.C09FragW
+import Rare.Drv.C08Time
 /-!
 Line-protocol ops of C09.
 
@@ -43,6 +45,13 @@ Line-protocol ops of C09.
                                                   standard function table; templates with builder errors are `unmodelled`
   kbapi <name> <template raw bytes>                `NewKeyBuilder()` (optimiser on), `Funcs(map)`, `HasFunc(name)`,
                                                   `StageCount()`, `DetailedError.Unwrap()` of every recorded error
+  wtree <opt> <tokens> <elems> <keys>             the WORLD-RELATIVE fragment (`Spec/C09FragW.lean`): trees over the value-level
+                                                  names, `format`, the binders `@map @filter @reduce @for` and the UTC time
+                                                  helpers; the model compiles the SPEC's print with the registry of the world and
+                                                  checks `print_compile_std_fragment_world` on it (no errors, value = `evalW`, the
+                                                  tree semantics WITH BINDERS); `wtreex`: without the claim.  The world of the
+                                                  driver: `unicode.IsPrint` unknown (both extremes are evaluated; when they differ
+                                                  the answer is `unmodelled format-isprint`), library calls beyond C18 `unmodelled`
   streex <opt> <tokens> <elems> <keys>            the same without the claim: any tree over the standard names; the
                                                   theorem is checked when `fragOk` holds, otherwise only compile + evaluate
 -/
@@ -151,6 +160,18 @@ def synKindStr : SynKind → String
 def synErrsStr (es : List SynErr) : String :=
   if es.isEmpty then "." else
   ",".intercalate (es.map fun e => s!"{synKindStr e.kind}@{e.index}:{Hex.enc (encodeRunes e.context)}")
+
+/-! ### the world of the driver (op `wtree`) -/
+
+def drvTw : Funcs.TimeW.TimeWorld := Rare.Drv.C08Time.world {}
+
+/-- `unicode.IsPrint` answers `p` for every non-ASCII rune; library calls beyond the model have no value here
+    (the model side answers `unmodelled …` before the value is looked at). -/
+def drvWorld (p : Bool) : FragWorld := ⟨fun _ => p, drvTw, fun _ => []⟩
+
+/-- The registry of the driver's world: `format` evaluated for both extremes of `unicode.IsPrint`. -/
+def registryW : Registry :=
+  mkRegistry (stdTable ++ [("format", Funcs.Format.kfFormatDrv)] ++ Funcs.TimeW.table drvTw) Gen.stdFunctionNames
 
 def handle (args : List String) : String :=
   match args with
@@ -279,7 +300,28 @@ def handle (args : List String) : String :=
       | _ => "bad-args"
     | _, _ => "bad-args"
   | [op, o, toks, el, ks] =>
-    if op == "stree" || op == "streex" then
+    if op == "wtree" || op == "wtreex" then
+      match decHexList el, decHexList ks with
+      | some elems, some keys =>
+        let tl := toks.splitOn ","
+        match parseNode (tl.length + 1) tl with
+        | some (pt, []) =>
+          let ctx := Rare.Drv.Expr.mkCtx elems keys
+          let tpl := printTop (styleOf pt) (treeOf pt)
+          let ans := answerBytes registryW (o == "1") (encodeRunes tpl) ctx
+          if ans.startsWith "unmodelled" then ans
+          else if fragOkW (drvWorld true) (treeOf pt) && fragOkW (drvWorld false) (treeOf pt) then
+            let spec := evalW (drvWorld true) (treeOf pt) ctx
+            let spec0 := evalW (drvWorld false) (treeOf pt) ctx
+            if spec != spec0 then "unmodelled format-isprint"
+            else if ans != s!"ok errs=. val={Hex.enc spec}" then
+              s!"spec-violation model {ans} tpl={Hex.enc (encodeRunes tpl)} spec={Hex.enc spec}"
+            else ans
+          else if op == "wtree" then s!"not-in-fragment tpl={Hex.enc (encodeRunes tpl)}"
+          else ans
+        | _ => "bad-args"
+      | _, _ => "bad-args"
+    else if op == "stree" || op == "streex" then
       match decHexList el, decHexList ks with
       | some elems, some keys =>
         let tl := toks.splitOn ","
